@@ -125,3 +125,11 @@ META["C04"] = dict(
     level_text="Exploration: plans of up to 64 concurrent unary, oneway, client-streaming, server-streaming and bidirectional calls over 1..3 shared connections; each handler's result bytes (self-describing per call id), status code (every standard code and application codes) and message (unicode, to 300 bytes), panics and early responses are part of the plan, and every caller must observe exactly its own call's outcome, streamed messages in order before the end marker, and the handler log must show each id exactly once. A scripted raw server answers with garbage, corrupted, status-less, mistyped or empty replies, which must never be observed as OK.",
     level_note="Interleavings are sampled. Result bytes are valid spec values (the response's any-field is copied raw by design).",
 )
+
+META["C09"] = dict(
+    engine="net",
+    design_ref="DESIGN.md 3/C09",
+    technique="fault-injection testing with enumerated crash points: recorded sessions re-run through a counting TCP proxy that cuts the connection after exactly k bytes in either direction (FIN, RST, half-close, stall-then-RST), plus rapid-generated fault-then-recover sequences; invariants over every call result, context, handler, log and goroutine",
+    level_text="Fault enumeration: five sessions (raw mpx echo, window-blocked sender, compressed 30 KB frames, unary RPC, bidirectional streaming RPC on an auto-connect client) are cut at every byte offset of both directions for short sessions and at handshake bytes, every 7th offset and the tail for long ones (all offsets in thorough), with four fault kinds; about 13 000 faulted runs per quick run. After each: every call returned within 10 s, none returned OK without the peer having done the work (self-describing payloads/results), no partial frame delivered, contexts cancelled, handlers released, no library panic, no per-connection goroutine left, and the same client completes the session again once the path is healed.",
+    level_note="Black-hole faults are outside the stated failure model (no heartbeat in the protocol). Bounds are generous constants measured from the injected FIN/RST.",
+)
